@@ -1847,7 +1847,52 @@ struct t3au {
     uint8_t *d;
     uint64_t cr_sys, cr_prog, cdd, dpd;
     bool rnd, disc;
+    bool has_cr_prog;   /* date_prog is a clock reference (needed for PCRs) */
+    bool has_pts;       /* the access unit has a PTS */
+    bool pts_only;      /* date_prog is a bare PTS: no DTS can be derived */
+    uint64_t D, P;      /* dts_prog / pts_prog in 27 MHz when present */
 };
+
+/* timestamp axis of T3. 0 is the original mix (first unit PTS = DTS + 3 frames, second PTS == DTS);
+ * NONE = a DTS but no DTS->PTS delay (PTS unknown), PTSONLY = a bare PTS, NODATE = no program date at all;
+ * the others give the dts_prog of the first unit (the second is 20000 ticks later, so its sub-tick phase differs by 200)
+ * and the DTS->PTS delay of both. */
+enum { T3TS_MIX, T3TS_NONE, T3TS_PTSONLY, T3TS_NODATE, T3TS_FIRST_TABLE };
+static const struct {
+    uint64_t dts, delay;
+    const char *what;
+} t3_tstab[] = {
+    {UINT64_C(27000000) * 10 + 123, 0, "PTS == DTS"},
+    {UINT64_C(300) * 100000 + 50, 100, "same 90 kHz tick, phase 50, delay 100"},
+    {UINT64_C(300) * 100000, 299, "same tick, phase 0, delay 299"},
+    {UINT64_C(300) * 100000 + 298, 1, "same tick, phase 298, delay 1"},
+    {UINT64_C(300) * 100000, 1, "same tick, phase 0, delay 1"},
+    {UINT64_C(300) * 100000 + 150, 100, "same tick, phase 150, delay 100"},
+    {UINT64_C(300) * 100000 + 250, 100, "next tick, phase 250, delay 100"},
+    {UINT64_C(300) * 100000 + 299, 1, "next tick, phase 299, delay 1"},
+    {UINT64_C(300) * 100000, 300, "adjacent ticks, phase 0, delay 300"},
+    {UINT64_C(300) * 100000 + 123, 300, "adjacent ticks, phase 123, delay 300"},
+    {UINT64_C(27000000) * 10 + 123, UINT64_C(27000000) * 50 + 7, "large delay (50 s)"},
+    {((UINT64_C(1) << 33) - 10) * 300 + 17, 15 * 300 + 5, "PTS wraps 2^33"},
+    {((UINT64_C(1) << 33) + 5) * 300 + 1, 3003 * 300, "both beyond 2^33"},
+    {((UINT64_C(1) << 33) - 1) * 300 + 299, 0, "last tick before the wrap, PTS == DTS"},
+    {((UINT64_C(1) << 33) - 1) * 300 + 100, 150, "last tick before the wrap, same tick"},
+    {((UINT64_C(1) << 33) - 1) * 300 + 200, 150, "PTS in tick 0 after the wrap"},
+    {((UINT64_C(1) << 33) - 100) * 300 + 50, 100, "second unit wraps"},
+};
+#define T3_NTS (T3TS_FIRST_TABLE + (int)(sizeof(t3_tstab) / sizeof(t3_tstab[0])))
+
+/* expected PES header timestamps of an access unit: PTS_DTS_flags and the 33-bit fields (2.4.3.7:
+ * PTS = (27 MHz date DIV 300) % 2^33; a DTS is only coded when it differs from the PTS) */
+static int t3_wire(const struct t3au *a, bool opt, uint64_t *wp, uint64_t *wd)
+{
+    *wp = *wd = 0;
+    if (!opt || !a->has_pts)
+        return 0;
+    *wp = (a->P / 300) % POW33;
+    *wd = a->pts_only ? *wp : (a->D / 300) % POW33;
+    return *wp == *wd ? 2 : 3;
+}
 struct t3pk {
     uint8_t b[188];
     uint64_t mux;
@@ -1859,22 +1904,29 @@ static void t3_feed(struct cx *cx, struct upipe *enc, struct t3au *a)
     struct uref *u = mk_uref(cx, a->d, a->size, 0, 0);
     assert(u);
     uref_clock_set_cr_sys(u, a->cr_sys);
-    uref_clock_set_cr_prog(u, a->cr_prog);
     uref_clock_set_cr_dts_delay(u, a->cdd);
-    uref_clock_set_dts_pts_delay(u, a->dpd);
+    if (a->pts_only)
+        uref_clock_set_pts_prog(u, a->P);
+    else if (a->has_cr_prog) {
+        uref_clock_set_cr_prog(u, a->cr_prog);
+        if (a->has_pts)
+            uref_clock_set_dts_pts_delay(u, a->dpd);
+    }
     if (a->rnd)
         uref_flow_set_random(u);
     if (a->disc)
         uref_flow_set_discontinuity(u);
-    VLOG("mux: input access unit of %d octets cr_sys=T0+%" PRIu64 "%s%s", a->size, a->cr_sys - T3_T0, a->rnd ? " random" : "", a->disc ? " discontinuity" : "");
+    VLOG("mux: input access unit of %d octets cr_sys=T0+%" PRIu64 "%s%s, %s dts_prog=%" PRIu64 " (tick %" PRIu64 " phase %d) pts_prog=%" PRIu64 " (tick %" PRIu64 " phase %d)", a->size,
+         a->cr_sys - T3_T0, a->rnd ? " random" : "", a->disc ? " discontinuity" : "", a->pts_only ? "PTS only" : !a->has_cr_prog ? "no program date" : !a->has_pts ? "DTS, no PTS" : "DTS+PTS", a->D, a->D / 300,
+         (int)(a->D % 300), a->P, a->P / 300, (int)(a->P % 300));
     upipe_input(enc, u, NULL);
     st_trans++;
 }
 
-static void run_t3(int s1, int s2, int di, int align, int pi, int flags, int feed, int hi)
+static void run_t3(int s1, int s2, int di, int align, int pi, int flags, int feed, int hi, int ti)
 {
     char id[96];
-    snprintf(id, sizeof(id), "t3:%d.%d.%d.%d.%d.%d.%d.%d", s1, s2, di, align, pi, flags, feed, hi);
+    snprintf(id, sizeof(id), "t3:%d.%d.%d.%d.%d.%d.%d.%d.%d", s1, s2, di, align, pi, flags, feed, hi, ti);
     int hdrmin = t2_hdrs[hi];
     v_crash_note(id);
     v_watchdog(30);
@@ -1889,12 +1941,34 @@ static void run_t3(int s1, int s2, int di, int align, int pi, int flags, int fee
         for (int i = 0; i < a->size; i++)
             a->d[i] = pat(200 + k, i);
         a->cr_sys = T3_T0 + UCLOCK_FREQ + (uint64_t)k * 20000;
-        a->cr_prog = a->cr_sys - T3_OFFSET;
         a->cdd = UCLOCK_FREQ / 2 + 77;
-        a->dpd = k == 0 ? UCLOCK_FREQ / 25 * 3 + 11 : 0;
+        a->has_cr_prog = a->has_pts = true;
+        a->pts_only = false;
+        if (ti < T3TS_FIRST_TABLE) {
+            a->cr_prog = a->cr_sys - T3_OFFSET;
+            a->dpd = k == 0 ? UCLOCK_FREQ / 25 * 3 + 11 : 0;
+            a->D = a->cr_prog + a->cdd;
+            if (ti == T3TS_NONE) /* a DTS alone cannot be coded: no PTS, no timestamp in the header */
+                a->has_pts = false;
+            else if (ti == T3TS_NODATE)
+                a->has_pts = a->has_cr_prog = false;
+            else if (ti == T3TS_PTSONLY) {
+                a->pts_only = true;
+                a->has_cr_prog = false;
+                a->dpd = 0;
+                a->D += 123 + 50 * k; /* sub-tick phase */
+            }
+        } else {
+            a->D = t3_tstab[ti - T3TS_FIRST_TABLE].dts + (uint64_t)k * 20000;
+            a->dpd = t3_tstab[ti - T3TS_FIRST_TABLE].delay;
+            a->cr_prog = a->D - a->cdd;
+        }
+        a->P = a->D + a->dpd;
         a->rnd = (flags >> (2 * k)) & 1;
         a->disc = (flags >> (2 * k + 1)) & 1;
     }
+    /* cr_sys - cr_prog, the same for every unit (mod 2^64) */
+    uint64_t sys_prog_offset = au[0].cr_sys - au[0].cr_prog;
     bool ok = true;
     /* with a configured minimum header the signature names the configuration class */
 #define XFAIL(sig_, ...)                                                       \
@@ -2002,9 +2076,10 @@ static void run_t3(int s1, int s2, int di, int align, int pi, int flags, int fee
     char fsig[64];
     const char *fr = cx_fini(cx, fsig, sizeof(fsig));
     if (fr != NULL) {
+        /* reported on its own: the packets are still parsed and fed back below */
         char sg[96];
         snprintf(sg, sizeof(sg), "t3:encaps:%s", fsig);
-        XFAIL(sg, "%s", fr);
+        report(sg, id, "%s", fr);
     }
     free(cx);
     if (enc_fatal)
@@ -2046,7 +2121,8 @@ static void run_t3(int s1, int s2, int di, int align, int pi, int flags, int fee
                   last_pcr ? last_pcr - T3_T0 : 0, pcr_int);
         if (has_pcr) {
             last_pcr = pk[k].mux;
-            uint64_t v = h->pcr_base * 300 + h->pcr_ext, want = pk[k].mux - T3_OFFSET;
+            uint64_t x = pk[k].mux - sys_prog_offset; /* the program clock at the mux date */
+            uint64_t v = h->pcr_base * 300 + h->pcr_ext, want = ((x / 300) % POW33) * 300 + x % 300;
             if (v != want)
                 XFAIL("t3:pcr-value", "packet %d: PCR %" PRIu64 ", the program clock at its mux date is %" PRIu64, k, v, want);
         }
@@ -2120,6 +2196,11 @@ static void run_t3(int s1, int s2, int di, int align, int pi, int flags, int fee
             o += au[k].size;
         }
         int gpos = 0, npes = 0, k = 0;
+        int pes_wf[T3_MAXPK];
+        uint64_t pes_wp[T3_MAXPK], pes_wd[T3_MAXPK];
+        memset(pes_wf, 0, sizeof(pes_wf));
+        memset(pes_wp, 0, sizeof(pes_wp));
+        memset(pes_wd, 0, sizeof(pes_wd));
         while (k < rd.nch && ok) {
             if (!rd.ch[k].start) {
                 XFAIL("t3:payload-before-unit-start", "ts_decaps output %d has no unit start and no PES packet is open", k);
@@ -2177,12 +2258,22 @@ static void run_t3(int s1, int s2, int di, int align, int pi, int flags, int fee
                 if (align && !h.align)
                     XFAIL("t3:alignment-indicator", "data_alignment_indicator clear on PES packet %d although PES alignment was requested", npes);
                 if (which >= 0) {
-                    uint64_t D = au[which].cr_prog + au[which].cdd, P = D + au[which].dpd;
-                    uint64_t wp = (P / 300) % POW33, wd = (D / 300) % POW33;
-                    int wf = wp == wd ? 2 : 3;
-                    if (h.ptsdts != wf || h.pts != wp || (wf == 3 && h.dts != wd))
-                        XFAIL("t3:pes-timestamps", "PES packet %d: flags %d PTS %" PRIu64 " DTS %" PRIu64 "; access unit %d commencing in it has PTS %" PRIu64 " DTS %" PRIu64, npes,
-                              h.ptsdts, h.pts, h.dts, which, wp, wd);
+                    uint64_t wp, wd;
+                    int wf = t3_wire(&au[which], true, &wp, &wd);
+                    if (wf == 0 && h.ptsdts != 0)
+                        XFAIL("t3:pes-pts-invented", "PES packet %d: PTS_DTS_flags %d PTS %" PRIu64 " DTS %" PRIu64 " although access unit %d commencing in it has no PTS (dts_prog %" PRIu64 ", no dts_pts_delay)",
+                              npes, h.ptsdts, h.pts, h.dts, which, au[which].D);
+                    if (wf != 0 && h.ptsdts == 0)
+                        XFAIL("t3:pes-pts-lost", "PES packet %d has no timestamp although access unit %d commencing in it has PTS %" PRIu64 " (pts_prog %" PRIu64 ", %s)", npes, which, wp,
+                              au[which].P, au[which].pts_only ? "bare PTS" : "DTS + delay");
+                    if (h.ptsdts != wf || (wf && h.pts != wp) || (wf == 3 && h.dts != wd))
+                        XFAIL("t3:pes-timestamps", "PES packet %d: PTS_DTS_flags %d PTS %" PRIu64 " DTS %" PRIu64 " (header_data_length %d); access unit %d commencing in it asks for flags %d PTS %" PRIu64 " DTS %" PRIu64 " (pts_prog %" PRIu64 " dts_prog %" PRIu64 ")",
+                              npes, h.ptsdts, h.pts, h.dts, h.hdl, which, wf, wp, wd, au[which].P, au[which].D);
+                    if (npes < T3_MAXPK) {
+                        pes_wf[npes] = wf;
+                        pes_wp[npes] = wp;
+                        pes_wd[npes] = wd;
+                    }
                 } else if (h.ptsdts)
                     XFAIL("t3:pes-timestamps", "PES packet %d has a PTS although no access unit commences in it", npes);
             }
@@ -2203,15 +2294,18 @@ static void run_t3(int s1, int s2, int di, int align, int pi, int flags, int fee
             }
             if (c->start) {
                 unit++;
-                /* which access unit commences at or after epos inside this PES? timestamps were checked on the PES header; here: values in 27 MHz */
+                /* the unit-th unit start is the unit-th PES packet: its timestamps at 90 kHz precision, stored in 27 MHz */
+                if (unit < npes && unit < T3_MAXPK && sid_has_opt(sid)) {
+                    uint64_t wp = pes_wp[unit], wd = pes_wf[unit] == 3 ? pes_wd[unit] : pes_wp[unit];
+                    uint64_t delay = ((POW33 + wp - wd) % POW33) * 300;
+                    if (pes_wf[unit] == 0) {
+                        if (c->has_dts_orig || c->has_dpd)
+                            XFAIL("t3:es-timestamp-invented", "unit start %d carries a timestamp although its access unit has no PTS", unit);
+                    } else if (!c->has_dts_orig || c->dts_orig != wd * 300 || (delay <= MAX_DELAY_27M && (!c->has_dpd || c->dpd != delay)))
+                        XFAIL("t3:es-timestamps", "unit start %d: dts_orig %" PRId64 " dts_pts_delay %" PRId64 ", expected %" PRIu64 " and %" PRIu64 " (PTS %" PRIu64 " DTS %" PRIu64 " at 90 kHz)", unit,
+                              c->has_dts_orig ? (int64_t)c->dts_orig : -1, c->has_dpd ? (int64_t)c->dpd : -1, wd * 300, delay, wp, wd);
+                }
                 if (align && unit < nau) {
-                    uint64_t D = au[unit].cr_prog + au[unit].cdd, P = D + au[unit].dpd;
-                    uint64_t wp = (P / 300) % POW33, wd = (D / 300) % POW33;
-                    if (sid_has_opt(sid)) {
-                        if (!c->has_dts_orig || c->dts_orig != wd * 300 || !c->has_dpd || c->dpd != (wp - wd) * 300)
-                            XFAIL("t3:es-timestamps", "access unit %d: dts_orig %" PRId64 " dts_pts_delay %" PRId64 ", expected %" PRIu64 " and %" PRIu64, unit,
-                                  c->has_dts_orig ? (int64_t)c->dts_orig : -1, c->has_dpd ? (int64_t)c->dpd : -1, wd * 300, (wp - wd) * 300);
-                    }
                     if (c->random != au[unit].rnd)
                         XFAIL("t3:es-random-marker", "access unit %d: flow.random is %d, input had %d", unit, c->random, au[unit].rnd);
                     if (unit > 0 && c->disc != au[unit].disc)
@@ -2262,12 +2356,35 @@ static void mode_t3(void)
                         for (int flags = 0; flags < (s2 != T3_NONE ? 16 : 4); flags++)
                             for (int feed = 0; feed < (s2 != T3_NONE ? 2 : 1); feed++) {
                                 if (take_case())
-                                    run_t3(s1, s2, di, align, pi, flags, feed, 0);
+                                    run_t3(s1, s2, di, align, pi, flags, feed, 0, T3TS_MIX);
                                 /* configured minimum PES header: single access units (thorough: all) */
                                 if ((s2 == T3_NONE || g_thorough) && take_case())
-                                    run_t3(s1, s2, di, align, pi, flags, feed, 1);
+                                    run_t3(s1, s2, di, align, pi, flags, feed, 1, T3TS_MIX);
                             }
         }
+    /* the timestamp axis: every size of the first unit x {alone, + 171, + 1000 octets} (thorough: + 4 sizes) x stream id x
+     * alignment x PCR interval x {no flag, both random} (thorough: 4 flag sets, both feeding orders, minimum header) */
+    static const int second_q[] = {T3_NONE, 4, 9}, second_t[] = {T3_NONE, 0, 4, 6, 9};
+    static const int flags_q[] = {0, 5}, flags_t[] = {0, 5, 10, 15};
+    for (int ti = 1; ti < T3_NTS && !g_expired; ti++)
+        for (int s1 = 0; s1 < ns; s1++)
+            for (int s2i = 0; s2i < (g_thorough ? 5 : 3); s2i++)
+                for (int di = 0; di < T2_NSIDS; di++)
+                    for (int align = 0; align < 2; align++)
+                        for (int pi = 0; pi < T3_NPCR; pi++) {
+                            if ((ti == T3TS_PTSONLY || ti == T3TS_NODATE) && pi != 0)
+                                continue; /* a bare PTS gives no clock reference: ts_encaps documents that it drops such units when PCRs are on */
+                            for (int fi = 0; fi < (g_thorough ? 4 : 2); fi++)
+                                for (int feed = 0; feed < (g_thorough ? 2 : 1); feed++)
+                                    for (int hi = 0; hi < (g_thorough ? 2 : 1); hi++) {
+                                        int s2 = g_thorough ? second_t[s2i] : second_q[s2i];
+                                        int fl = g_thorough ? flags_t[fi] : flags_q[fi];
+                                        if (s2 == T3_NONE && (feed || (fl & 12)))
+                                            continue;
+                                        if (take_case())
+                                            run_t3(s1, s2, di, align, pi, fl, feed, hi, ti);
+                                    }
+                        }
 }
 
 
@@ -2438,11 +2555,11 @@ static bool replay_other(const char *id)
         return true;
     }
     if (!strncmp(id, "t3:", 3)) {
-        int a, b, c, d, e, f, g, h = 0;
-        if (sscanf(id, "t3:%d.%d.%d.%d.%d.%d.%d.%d", &a, &b, &c, &d, &e, &f, &g, &h) < 7 || h < 0 || h >= T2_NHDRS || a < 0 || a >= T3_NSIZES || b < 0 || (b >= T3_NSIZES && b != T3_NONE) || c < 0 || c >= T2_NSIDS ||
+        int a, b, c, d, e, f, g, h = 0, ti = 0;
+        if (sscanf(id, "t3:%d.%d.%d.%d.%d.%d.%d.%d.%d", &a, &b, &c, &d, &e, &f, &g, &h, &ti) < 7 || h < 0 || h >= T2_NHDRS || ti < 0 || ti >= T3_NTS || a < 0 || a >= T3_NSIZES || b < 0 || (b >= T3_NSIZES && b != T3_NONE) || c < 0 || c >= T2_NSIDS ||
             e < 0 || e >= T3_NPCR)
             return false;
-        run_t3(a, b, c, !!d, e, f & 15, !!g, h);
+        run_t3(a, b, c, !!d, e, f & 15, !!g, h, ti);
         return true;
     }
     if (!strncmp(id, "t2d:", 4) || !strncmp(id, "t4p:", 4)) {
